@@ -271,6 +271,7 @@ def tick_setup(I):
 
 
 def s_tasks_copy(I, recv, args, kw):
+    I.st.ghost['TASK_LOOP_ENTERED'] = True
     L = List(Tup(Ref, Ref, Ref)).fresh('tasks_copy')
     I.assume(L.lo <= L.hi)
     I.st.ghost['TASKLIST'] = L
@@ -314,6 +315,14 @@ def tick_post(I, outcome, ctx):
         I.oblige('tasks_before_generate_before_flush', z3.BoolVal([o for o in order if o != 'task'] == ['fire', 'flush']))
     if flush:
         I.oblige('flush_is_last', z3.BoolVal(order[-1] == 'flush'))
+    # "keeps processing": a tick that finds registered tasks (suspended generator handlers, call/wait continuations) steps them; the
+    # loop over the tasks may not be skipped while the task set is non-empty
+    if not I.st.ghost.get('TASK_LOOP_ENTERED'):
+        pre = ctx['pre']
+        t0 = z3.Select(pre['_tasks'][0], self.t)
+        x = core.fresh('task', core.RefSort())
+        I.oblige('registered_tasks_are_stepped', z3.Not(z3.Exists([x], z3.Select(t0, x))),
+                 detail='tasks were registered but tick() did not step them')
 
 
 def tick_task_iter(I):
